@@ -975,7 +975,12 @@ fn add_jitter(delay: &u64) -> Duration {
 
     // Calculate jitter as a random value in the range of +/- MAX_JITTER_PERCENT of the delay.
     let max_jitter = delay.saturating_mul(MAX_JITTER_PERCENT * 2) / 100;
-    let jitter = rand::random::<u64>() % max_jitter;
+    // For delays of 1 and 2 ms the jitter range is empty.
+    let jitter = if max_jitter == 0 {
+        0
+    } else {
+        rand::random::<u64>() % max_jitter
+    };
     #[cfg(iroh_verif)]
     let jitter = iroh_base::verif::choose_u64("dns.stagger.jitter", max_jitter).unwrap_or(jitter);
 
